@@ -22,6 +22,7 @@ import TnVerif.Model.Cat
 import TnVerif.Model.Pad
 import TnVerif.Model.TTMatMul
 import TnVerif.Model.Stats
+import TnVerif.Model.Einsum
 /-
   Line-protocol driver (DESIGN §2.6).  One request per line on stdin, one answer per line on
   stdout.  Tokens are separated by blanks; numbers are integers or `p/q`.
@@ -580,6 +581,29 @@ def run (cmd : String) : PM String := do
       | .error .assertLen => return "err assertLen"
       | .error (.idx e) => return "err " ++ showErr e
       | .ok x => return "ok S " ++ showQ x
+  | "einsum" => do
+      -- einsum <equation> <k> (<letter> <size>)*k <nops> <operand values, flat row-major>…   (C18, Model/Einsum.lean)
+      let eq ← next
+      let s := TN.Einsum.parse eq
+      if !s.wf then throw "badEquation"
+      let k ← pNat
+      let mut dl : List (Char × Nat) := []
+      for _ in [0:k] do
+        let t ← next
+        let n ← pNat
+        match t.toList with
+        | [c] => dl := (c, n) :: dl
+        | _ => throw s!"letter expected: {t}"
+      for c in s.letters do
+        if (dl.lookup c).isNone then throw s!"noSize {c}"
+      let dims : Char → Nat := fun c => (dl.lookup c).getD 0
+      let nops ← pNat
+      if nops != s.ins.length then throw "operandCount"
+      let mut ops : Array (List Nat → Q) := #[]
+      for l in s.ins do
+        let a ← pArr ((l.map dims).prod)
+        ops := ops.push (TN.Einsum.ofFlat dims l (fun i => a.getD i 0))
+      return "ok " ++ showQs (TN.Einsum.evalAll s dims ops.toList)
   | _ => throw s!"unknown command {cmd}"
 
 def handle (line : String) : String :=
